@@ -13,7 +13,7 @@ EXTENDS NslTypes, TLC, Json, SequencesExt
 
 CONSTANTS Tier, MaxCands
 
-Uni == IF Tier = "quick" THEN {TInt, TFloat, Vec("float", 2)}
+Uni == IF Tier \in {"quick", "dups"} THEN {TInt, TFloat, Vec("float", 2)}
        ELSE IF Tier = "vectors" THEN {TInt, Vec("int", 2), Vec("float", 2), Vec("float", 3)}      \* several types of one shape class
        ELSE {TInt, TUInt, TFloat, Vec("int", 2), Vec("float", 2), Vec("float", 3)}
 Sigs == {<<>>} \cup {<<a>> : a \in Uni} \cup {<<a, b>> : a \in Uni, b \in Uni}
@@ -24,7 +24,10 @@ ASSUME PrintT(ToJson([argseq |-> [i \in 1..Len(ArgSeq) |-> Names(ArgSeq[i])]]))
 VARIABLE cands
 vars == <<cands>>
 Distinct(s) == \A i, j \in 1..Len(s) : i # j => s[i] # s[j]
-Init == cands \in {s \in UNION {[1..n -> Sigs] : n \in 1..MaxCands} : Distinct(s)}
+\* Tier "dups": the same parameter list declared twice (the two declarations differ in their result type only, which is no part of a
+\* signature): every viable call has two best candidates
+Init == IF Tier = "dups" THEN cands \in {<<s, s>> : s \in Sigs}
+        ELSE cands \in {s \in UNION {[1..n -> Sigs] : n \in 1..MaxCands} : Distinct(s)}
 Next == UNCHANGED cands
 Spec == Init /\ [][Next]_vars
 
